@@ -42,7 +42,8 @@ Section Safety.
   Proof.
     intros Hi Hs. induction Hs; [apply gext_refl|].
     eapply gext_trans; [|apply IHHs; eapply inv_step; eauto].
-    destruct Hi as [H1 H2 H3]. eapply step_gext; eauto.
+    pose proof (inv_fresh V V_nodup n l n1 Hi H) as Hf.
+    destruct Hi as [H1 Hq H2 H3a H3b]. eapply step_gext; eauto.
   Qed.
 
   Lemma steps_reachable n ls n' : reachable n -> steps n ls n' -> reachable n'.
@@ -59,10 +60,10 @@ Section Safety.
     role (nodes n i) = Leader -> t < term (nodes n i) ->
     firstn k (log (nodes n i)) = firstn k (llog n t).
   Proof.
-    intros Hr Hcm Hrole Hlt. destruct (inv_reachable V V_nodup n Hr) as [H1 H2 H3].
+    intros Hr Hcm Hrole Hlt. destruct (inv_reachable V V_nodup n Hr) as [H1 Hq H2 H3a H3b].
     rewrite <- (i_leader_log n H2 i Hrole).
-    apply (leader_completeness1 V n H1 H2 H3 _ t k Hcm Hlt).
-    rewrite (i_leader V n H1 i Hrole). discriminate.
+    apply (leader_completeness1 V n H2 H3b _ t k Hcm Hlt).
+    rewrite (i_leader n H1 i Hrole). discriminate.
   Qed.
 
   (* what AdvanceCommit establishes *)
@@ -70,9 +71,9 @@ Section Safety.
     inv n -> step n (LAdvanceCommit i k) n1 ->
     committed n (term (nodes n i)) k /\ llog n (term (nodes n i)) = log (nodes n i).
   Proof.
-    intros [H1 H2 H3] Hstep. inv_step Hstep.
+    intros [H1 Hq H2 H3a H3b] Hstep. inv_step Hstep.
     match goal with Hr : role _ = Leader |- _ => pose proof (i_leader_log n H2 i Hr) as Hll end.
-    assert (1 <= term (nodes n i)) by (apply (i_role_term V n H1); congruence).
+    assert (1 <= term (nodes n i)) by (apply (i_role_term n H1); congruence).
     assert (1 <= k <= length (log (nodes n i))) by (apply term_at_in_range; lia).
     split; [|exact Hll]. unfold RaftNetCommitDefs.committed. rewrite Hll.
     split; [assumption|]. split; [assumption|]. now apply count_ack_quorum.
@@ -102,10 +103,10 @@ Section Safety.
     reachable n -> k <= commit (nodes n a) -> k <= commit (nodes n b) ->
     firstn k (log (nodes n a)) = firstn k (log (nodes n b)).
   Proof.
-    intros Hr Ha Hb. destruct (inv_reachable V V_nodup n Hr) as [H1 H2 H3].
-    destruct (i_commit_bounds V n H3 a) as (Hca & _).
-    destruct (i_commit_bounds V n H3 b) as (Hcb & _).
-    eapply (cprefix_agree2 V n _ _ _ _ _ _ k H1 H2 H3 (i_hcommit V n H3 a) (i_hcommit V n H3 b)); lia.
+    intros Hr Ha Hb. destruct (inv_reachable V V_nodup n Hr) as [H1 Hq H2 H3a H3b].
+    destruct (i_commit_bounds n H3a a) as (Hca & _).
+    destruct (i_commit_bounds n H3a b) as (Hcb & _).
+    eapply (cprefix_agree2 V n _ _ _ _ _ _ k H2 H3b (i_hcommit V n H3b a) (i_hcommit V n H3b b)); lia.
   Qed.
 
   Corollary state_machine_safety_entry n a b k j :
@@ -119,8 +120,8 @@ Section Safety.
   Theorem commit_in_range n i :
     reachable n -> commit (nodes n i) <= length (log (nodes n i)).
   Proof.
-    intros Hr. destruct (inv_reachable V V_nodup n Hr) as [H1 H2 H3].
-    destruct (i_commit_bounds V n H3 i). lia.
+    intros Hr. destruct (inv_reachable V V_nodup n Hr) as [H1 Hq H2 H3a H3b].
+    destruct (i_commit_bounds n H3a i). lia.
   Qed.
 
   (* ---- (5) committed entries are never replaced ---- *)
@@ -130,15 +131,15 @@ Section Safety.
     hcommit (nodes n i) <= hcommit (nodes n' i) /\
     agree (hcommit (nodes n i)) (log (nodes n' i)) (log (nodes n i)).
   Proof.
-    intros [H1 H2 H3] Hstep. split.
+    intros [H1 Hq H2 H3a H3b] Hstep. split.
     - inv_step Hstep; simp_upd; lia.
-    - destruct (i_commit_bounds V n H3 i) as (_ & Hb).
+    - destruct (i_commit_bounds n H3a i) as (_ & Hb).
       destruct (step_log_cases V n l n' i Hstep)
         as [(e & ->)|[(T & ldr & prev & pt & ents & lc & Hae & HT & HT' & Hpt & Hta)
                      |(m & -> & Hm & _)]].
       + now apply agree_app_l.
       + subst T pt.
-        now destruct (handle_ae_hcommit V n i ldr prev ents lc _ H1 H2 H3 Hae Hta).
+        now destruct (handle_ae_hcommit n i ldr prev ents lc _ H2 (agl_fixed V n H2 H3a H3b) Hae Hta).
       + now apply agree_firstn.
   Qed.
 
@@ -159,7 +160,7 @@ Section Safety.
   Proof.
     intros Hr Hs Hk. pose proof (inv_reachable V V_nodup n Hr) as Hi.
     destruct (hcommit_steps n ls n' i Hi Hs) as (_ & Hag).
-    destruct Hi as [H1 H2 H3]. destruct (i_commit_bounds V n H3 i) as (Hc & _).
+    destruct Hi as [H1 Hq H2 H3a H3b]. destruct (i_commit_bounds n H3a i) as (Hc & _).
     eapply agree_le; [exact Hag | lia].
   Qed.
 
@@ -177,7 +178,7 @@ Section Safety.
     t = term (nodes n j) -> term_at (log (nodes n j)) prev = pt ->
     try_append (log (nodes n j)) (commit (nodes n j)) prev ents <> None.
   Proof.
-    intros Hr Hae -> Hpt. destruct (inv_reachable V V_nodup n Hr) as [H1 H2 H3].
+    intros Hr Hae -> Hpt. destruct (inv_reachable V V_nodup n Hr) as [H1 Hq H2 H3a H3b].
     unfold try_append.
     destruct (first_conflict (log (nodes n j)) (S prev) ents) as [ci|] eqn:Hfc; [|discriminate].
     destruct (Nat.ltb_spec (commit (nodes n j)) ci) as [|Hge]; [discriminate|]. exfalso.
@@ -188,8 +189,8 @@ Section Safety.
       apply log_ok_firstn. apply (i_llog_ok n H2). }
     destruct (first_conflict_some (log (nodes n j)) prev ents ci Hprev Hpos LM Hfc) as (Hci & _ & Hne & _).
     destruct (i_ae n H2 _ _ _ _ _ _ Hae) as (Hlead & Hlen & _).
-    destruct (hcommit_agrees_leader V n j _ H1 H2 H3 eq_refl Hlead) as (Hag & _).
-    destruct (i_commit_bounds V n H3 j) as (Hc & _).
+    destruct (agl_fixed V n H2 H3a H3b j _ eq_refl Hlead) as (Hag & _).
+    destruct (i_commit_bounds n H3a j) as (Hc & _).
     apply Hne. rewrite Hview.
     rewrite (agree_term_at _ ci _ _ Hag) by lia.
     symmetry. apply term_at_firstn. lia.
@@ -199,10 +200,10 @@ Section Safety.
     reachable n -> In (HB t ldr j c) (msgs n) -> t = term (nodes n j) ->
     c <= length (log (nodes n j)).
   Proof.
-    intros Hr Hhb ->. destruct (inv_reachable V V_nodup n Hr) as [H1 H2 H3].
-    destruct (i_hb V n H3 _ _ _ _ Hhb) as [->|(Hack & _)]; [lia|].
-    pose proof (acked_len n _ _ _ (i_ack_le V n H3) Hack) as Hl.
-    destruct (i_ack_node V n H3 _ _ _ Hack) as [Hag|(U & HU & _)]; [|lia].
+    intros Hr Hhb ->. destruct (inv_reachable V V_nodup n Hr) as [H1 Hq H2 H3a H3b].
+    destruct (i_hb V n H3b _ _ _ _ Hhb) as [->|(Hack & _)]; [lia|].
+    pose proof (acked_len n _ _ _ (i_ack_le n H3a) Hack) as Hl.
+    destruct (i_ack_node n H3a _ _ _ Hack) as [Hag|(U & HU & _)]; [|lia].
     apply agree_sym in Hag. eapply agree_len; eauto.
   Qed.
 
